@@ -10,6 +10,8 @@
      [op:"rangep", ch]          for v := range ch { println(v) }
      [op:"rangefwd", ch, ch2, add]   for v := range ch { ch2 <- v + add }
      [op:"selrecv", chs]        select { case v := <-chs[1]: acc += v; case v := <-chs[2]: acc += v ... }
+     [op:"selsend", chs, schs, vs]   select { case v := <-chs[k]: acc += v ...; case schs[k] <- vs[k]: ... }
+                                (all the values vs[k] are evaluated before the select; exactly one case proceeds)
      [op:"print"]               println(acc)                 [op:"printc", v]       println(v)
    Channel semantics: unbuffered rendezvous, buffered FIFO, close, receive from a closed channel
    yields the zero value, send on / close of a closed channel panics, a nil channel is not modelled.
@@ -29,10 +31,10 @@ Body(t) == P.threads[t]
 AtEnd(t) == pc[t] > Len(Body(t))
 I(t) == Body(t)[pc[t]]
 Active(t) == started[t] /\ ~AtEnd(t) /\ status = "run"
-RecvOps == {"recv", "recvp", "range", "rangep", "rangefwd", "selrecv"}
+RecvOps == {"recv", "recvp", "range", "rangep", "rangefwd", "selrecv", "selsend"}
 \* thread t is ready to receive on channel c (its current instruction is a receive on c and it holds nothing)
 WantsRecv(t, c) == /\ Active(t) /\ hold[t] = -1 /\ I(t).op \in RecvOps
-                   /\ IF I(t).op = "selrecv" THEN \E k \in DOMAIN I(t).chs : I(t).chs[k] = c ELSE I(t).ch = c
+                   /\ IF I(t).op \in {"selrecv", "selsend"} THEN \E k \in DOMAIN I(t).chs : I(t).chs[k] = c ELSE I(t).ch = c
 
 Init == /\ p \in DOMAIN Progs
         /\ pc = [t \in DOMAIN Progs[p].threads |-> 1]
@@ -44,7 +46,7 @@ Init == /\ p \in DOMAIN Progs
 
 \* effect on receiver r of receiving value v (ok = FALSE: the channel is closed and empty)
 RecvPC(r, ok)  == IF I(r).op \in {"range", "rangep", "rangefwd"} THEN (IF ok THEN pc[r] ELSE pc[r] + 1) ELSE pc[r] + 1
-RecvAcc(r, v, ok) == IF I(r).op \in {"recv", "range", "selrecv"} /\ ok THEN acc[r] + v ELSE acc[r]
+RecvAcc(r, v, ok) == IF I(r).op \in {"recv", "range", "selrecv", "selsend"} /\ ok THEN acc[r] + v ELSE acc[r]
 RecvOut(r, v, ok) == IF (I(r).op = "recvp") \/ (I(r).op = "rangep" /\ ok) THEN Append(out, v) ELSE out
 RecvHold(r, v, ok) == IF I(r).op = "rangefwd" /\ ok THEN v + I(r).add ELSE -1
 DoRecv(r, v, ok) == /\ pc' = [pc EXCEPT ![r] = RecvPC(r, ok)]
@@ -52,29 +54,31 @@ DoRecv(r, v, ok) == /\ pc' = [pc EXCEPT ![r] = RecvPC(r, ok)]
                     /\ out' = RecvOut(r, v, ok)
                     /\ hold' = [hold EXCEPT ![r] = RecvHold(r, v, ok)]
 
-\* what thread t currently wants to send, and where: a send instruction, or the body of rangefwd
-SendReq(t) == IF ~Active(t) THEN <<0, 0, FALSE>>
-              ELSE IF hold[t] # -1 THEN <<I(t).ch2, hold[t], TRUE>>
-              ELSE IF I(t).op = "send" THEN <<I(t).ch, I(t).v, TRUE>>
-              ELSE IF I(t).op = "sendacc" THEN <<I(t).ch, acc[t], TRUE>>
-              ELSE <<0, 0, FALSE>>
+\* what thread t currently offers to send, and where (a set of <<channel, value>>): a send instruction, the
+\* body of rangefwd, or the send cases of a select - of which exactly one proceeds
+SendReqs(t) == IF ~Active(t) THEN {}
+               ELSE IF hold[t] # -1 THEN {<<I(t).ch2, hold[t]>>}
+               ELSE IF I(t).op = "send" THEN {<<I(t).ch, I(t).v>>}
+               ELSE IF I(t).op = "sendacc" THEN {<<I(t).ch, acc[t]>>}
+               ELSE IF I(t).op = "selsend" THEN {<<I(t).schs[k], I(t).vs[k]>> : k \in DOMAIN I(t).schs}
+               ELSE {}
 AfterSendPC(t) == IF hold[t] # -1 THEN pc[t] ELSE pc[t] + 1     \* the rangefwd body returns to the loop head
 
-SendBuffered(t) == LET q == SendReq(t) c == q[1] IN
-  /\ q[3] /\ chans[c].cap > 0 /\ ~chans[c].closed /\ Len(chans[c].buf) < chans[c].cap
+SendBuffered(t) == \E q \in SendReqs(t) : LET c == q[1] IN
+  /\ chans[c].cap > 0 /\ ~chans[c].closed /\ Len(chans[c].buf) < chans[c].cap
   /\ chans' = [chans EXCEPT ![c].buf = Append(@, q[2])]
   /\ pc' = [pc EXCEPT ![t] = AfterSendPC(t)] /\ hold' = [hold EXCEPT ![t] = -1]
   /\ UNCHANGED <<p, acc, started, out, status>>
 \* unbuffered: sender and receiver meet in one step
-Rendezvous(t, r) == LET q == SendReq(t) c == q[1] IN
-  /\ q[3] /\ r # t /\ chans[c].cap = 0 /\ ~chans[c].closed /\ WantsRecv(r, c)
+Rendezvous(t, r) == \E q \in SendReqs(t) : LET c == q[1] IN
+  /\ r # t /\ chans[c].cap = 0 /\ ~chans[c].closed /\ WantsRecv(r, c)
   /\ pc' = [pc EXCEPT ![t] = AfterSendPC(t), ![r] = RecvPC(r, TRUE)]
   /\ acc' = [acc EXCEPT ![r] = RecvAcc(r, q[2], TRUE)]
   /\ out' = RecvOut(r, q[2], TRUE)
   /\ hold' = [hold EXCEPT ![t] = -1, ![r] = RecvHold(r, q[2], TRUE)]
   /\ UNCHANGED <<p, started, chans, status>>
-SendOnClosed(t) == LET q == SendReq(t) IN
-  /\ q[3] /\ chans[q[1]].closed /\ status' = "panic" /\ UNCHANGED <<p, pc, acc, started, hold, chans, out>>
+SendOnClosed(t) == \E q \in SendReqs(t) :
+  /\ chans[q[1]].closed /\ status' = "panic" /\ UNCHANGED <<p, pc, acc, started, hold, chans, out>>
 RecvBuffered(r, c) ==
   /\ WantsRecv(r, c) /\ chans[c].buf # <<>>
   /\ chans' = [chans EXCEPT ![c].buf = Tail(@)]
